@@ -92,7 +92,7 @@ func NewContractSet() *ContractSet {
 }
 
 var kwRe = regexp.MustCompile(`^(func|requires|ensures|modifies|loop|pure|rec|pred|axiom|trusted|opaque|global|uninterp|note|cost|reads)\b`)
-var tagRe = regexp.MustCompile(`\s*\[([A-Za-z0-9_,\- ]+)\]\s*$`)
+var tagRe = regexp.MustCompile(`\s\[(C[0-9]+[A-Za-z0-9_,\- ]*)\]\s*$`)
 
 type rawClause struct {
 	text string
